@@ -43,16 +43,16 @@ def parseList (s : String) (c : Char) : List String :=
 
 def parseTx (s : String) : Tx :=
   match splitOnChar s ':' with
-  | [txid, cb, vsize, ins, outs] =>
-    { txid := hexToNat txid, coinbase := cb == "1", vsize := vsize.toNat!,
+  | [txid, ntxid, cb, vsize, ins, outs] =>
+    { txid := hexToNat txid, ntxid := hexToNat ntxid, coinbase := cb == "1", vsize := vsize.toNat!,
       ins := (parseList ins '|').map parseOutPoint, outs := (parseList outs '|').map parseTxOut }
   | _ => { txid := 0, coinbase := false, vsize := 0, ins := [], outs := [] }
 
 def parseBlock (s : String) : Block :=
   match splitOnChar s ',' with
-  | [hash, prev, diff, time, bits, hdr, txs] =>
+  | [hash, prev, diff, time, bits, hdr, mok, txs] =>
     { hash := hexToNat hash, prev := hexToNat prev, diff := diff.toNat!, time := time.toNat!,
-      bits := bits.toNat!, header := hdr, txs := (parseList txs ';').map parseTx }
+      bits := bits.toNat!, header := hdr, txs := (parseList txs ';').map parseTx, merkleOk := mok == "1" }
   | _ => { hash := 0, prev := 0, diff := 0, time := 0, bits := 0, header := "", txs := [] }
 
 def hash64 (n : Nat) : String := natToHex n 64
